@@ -164,7 +164,7 @@ func cmdCheck(args []string) {
 	known, _ := loadKnownFindings(filepath.Join(vdir, "known_findings.txt"))
 	isKnown := func(name string) *knownFinding {
 		for i := range known {
-			if known[i].Prop == *prop && known[i].Obligation == name {
+			if known[i].Obligation == name {
 				return &known[i]
 			}
 		}
